@@ -5,7 +5,7 @@ From SP Require Import Model.Num Model.Arrow Model.Bounds Model.PointKernels Mod
                        Proofs.IntersectBase Proofs.IntersectPoints Proofs.IntersectSeg
                        Proofs.IntersectPlane Proofs.IntersectLine Proofs.IntersectWinding
                        Proofs.IntersectPolygon Proofs.IntersectPolygonC Proofs.IntersectWnConst
-                       Proofs.IntersectPolyArrays.
+                       Proofs.IntersectPolyArrays Proofs.IntersectScalars.
 Import ListNotations.
 Local Open Scope Z_scope.
 
@@ -353,6 +353,77 @@ Qed.
 Example ex_polygons_wf :
   wf_ring_offsets [0; 0; 8; 0; 8; 8; 0; 8; 0; 0; 2; 2; 2; 6; 6; 6; 6; 2; 2; 2] [0; 10; 20]%nat 0 2.
 Proof. vm_compute. repeat split; lia. Qed.
+
+(* ---- (f) the scalar wrappers, over the scalar's own listarray buffers
+        (nbuf = len(listarray.buffers()): 1 = empty element, 2 = primitive array, >= 3 = list array) ---- *)
+
+Theorem C01_scalar_empty : forall a b,
+  (forall r, line_scalar 1 a b = Some r -> r = false) /\
+  (forall r, multipoint_scalar 1 a b = Some r -> r = false) /\
+  (forall r, multiline_scalar 1 a b = Some r -> r = false) /\
+  (forall r, multipolygon_scalar 1 a b = Some r -> r = false).
+Proof. exact scalar_empty_false. Qed.
+Print Assumptions C01_scalar_empty.
+
+Theorem C01_line_scalar : forall a bx0 by0 bx1 by1 r,
+  line_scalar 2 a (bx0, by0, bx1, by1) = Some r ->
+  exists vals, finite_vals (la_vals a) = Some vals /\
+  (bx0 <> bx1 -> by0 <> by1 ->
+   (r = true <->
+    exists P, in_zbox (Z.min bx0 bx1) (Z.min by0 by1) (Z.max bx0 bx1) (Z.max by0 by1) P /\
+              line_set (zpairs (slice 0 (la_len a) vals)) P)) /\
+  ((bx0 = bx1 \/ by0 = by1) -> r = false).
+Proof. exact line_scalar_correct. Qed.
+Print Assumptions C01_line_scalar.
+
+Theorem C01_multipoint_scalar : forall a b r,
+  multipoint_scalar 2 a b = Some r ->
+  exists vals, finite_vals (la_vals a) = Some vals /\
+  (r = true <-> exists p, In p (zpairs (slice 0 (la_len a) vals)) /\ zbox_has b p).
+Proof. exact multipoint_scalar_correct. Qed.
+Print Assumptions C01_multipoint_scalar.
+
+Theorem C01_multiline_scalar : forall nbuf a bx0 by0 bx1 by1 r, (3 <= nbuf)%nat ->
+  multiline_scalar nbuf a (bx0, by0, bx1, by1) = Some r ->
+  exists vals, finite_vals (buffer_values a) = Some vals /\
+  let offs := outer_offsets_of (buffer_offsets a) in
+  (bx0 <> bx1 -> by0 <> by1 ->
+   (r = true <->
+    exists P, in_zbox (Z.min bx0 bx1) (Z.min by0 by1) (Z.max bx0 bx1) (Z.max by0 by1) P /\
+              lines_set (lines_of vals offs) P)) /\
+  ((bx0 = bx1 \/ by0 = by1) -> r = false).
+Proof. exact multiline_scalar_correct. Qed.
+Print Assumptions C01_multiline_scalar.
+
+(* Polygon / MultiPolygon scalars run the kernels of (e) over all rings / parts of
+   their own buffers: C01_polygon_kernel / C01_multipolygon_kernel then give the meaning *)
+Theorem C01_polygon_scalar : forall nbuf a bx0 by0 bx1 by1 r, (3 <= nbuf)%nat ->
+  polygon_scalar nbuf a (bx0, by0, bx1, by1) = Some r ->
+  exists vals, finite_vals (buffer_values a) = Some vals /\
+  let offsets1 := inner_offsets_of (buffer_offsets a) in
+  r = perform_polygon (Z.min bx0 bx1) (Z.min by0 by1) (Z.max bx0 bx1) (Z.max by0 by1)
+                      vals offsets1 0 (length offsets1 - 1).
+Proof. exact polygon_scalar_kernel. Qed.
+Print Assumptions C01_polygon_scalar.
+
+Theorem C01_multipolygon_scalar : forall nbuf a bx0 by0 bx1 by1 r offsets1 offsets2,
+  (3 <= nbuf)%nat -> buffer_offsets a = [offsets1; offsets2] ->
+  multipolygon_scalar nbuf a (bx0, by0, bx1, by1) = Some r ->
+  exists vals, finite_vals (buffer_values a) = Some vals /\
+  r = perform_multipolygon (Z.min bx0 bx1) (Z.min by0 by1) (Z.max bx0 bx1) (Z.max by0 by1)
+                           vals offsets1 offsets2 0 (length offsets1 - 1).
+Proof. exact multipolygon_scalar_kernel. Qed.
+Print Assumptions C01_multipolygon_scalar.
+
+Example ex_scalars :
+  (* the empty multipolygon (repaired by aea1afe), a two-vertex line, a polygon with a hole *)
+  multipolygon_scalar 1 (Build_listarr 0 0 None [] []) (0, 0, 3, 3) = Some false /\
+  line_scalar 2 (Build_listarr 0 4 None [] [Some 0; Some 3; Some 6; Some 3]) (1, 1, 4, 3) = Some true /\
+  polygon_scalar 3 (Build_listarr 0 2 None [[0; 10; 20]%nat]
+     [Some 0; Some 0; Some 8; Some 0; Some 8; Some 8; Some 0; Some 8; Some 0; Some 0;
+      Some 2; Some 2; Some 2; Some 6; Some 6; Some 6; Some 6; Some 2; Some 2; Some 2])
+     (3, 3, 5, 5) = Some false.
+Proof. vm_compute. repeat split. Qed.
 
 (* ---- non-vacuity ---- *)
 Definition ex_points : fixarr :=
